@@ -30,6 +30,11 @@ fn main() {
             // run [oracle-out]
             run::run_stdin(args.get(2).map(|s| &s[..]));
         }
+        Some("openonly") => extra::open_only(&args[2]),
+        Some("golden") => {
+            // golden <dir>: files written by the CURRENT tree, to be committed once
+            gen::golden(&args[2]);
+        }
         Some("digest") => {
             let ty: u64 = args[2].parse().unwrap();
             let ops = if let Some(p) = args[3].strip_prefix('@') {
